@@ -265,7 +265,7 @@ func init() {
 	Register(&Check{ID: "C10", Level: "exploration",
 		Rule: "one case = one generated workflow (multi-input, multi-output, fan-in/out, parameters, MapToTags taggers, StreamToSubStream + joined in-ports, Go-function tasks, Process.Prepend launchers, empty outputs) under one tape-chosen schedule. For EVERY finalized output the audit file is parsed (strict JSON decoding into the record type) and compared field by field, recursively down to the source files, with the lineage tree of the independent reference: ProcessName, Params, OutFiles, Upstream keys, inherited tags (superset; extras only from taggers), Command = every word the simulated shell actually received (launcher included), StartTime<=FinishTime, duration>=0. Round 5: the record on disk of every file that passed a tagging component holds the tag; sibling outputs of one task tagged alike. Round 6: stale longer audit files at output paths; the audit file is ONE JSON document; per-cent signs on command lines; duration = finish - start, interval contains the execution. Round 7: parameters that are not on the command line; the sibling of a tagger on an idle machine. distinct = event-log hash; non-trivial = >=2 tasks and >=1 non-default choice",
 		Run: func(c *Case) Verdict {
-			switch c.Tape.Choose(simrt.StGen, 8, 0) {
+			switch c.Tape.Choose(simrt.StGen, 9, 0) {
 			case 1:
 				return lazyTagCase(c)
 			case 2:
@@ -274,6 +274,8 @@ func init() {
 				return siblingTaggerCase(c)
 			case 4:
 				return siblingTaggerIdleCase(c)
+			case 5:
+				return conflictingTagCase(c)
 			}
 			w := Generate(c.Tape, tierProfile(profC10, c.Tier))
 			// (before the tag arguments: it changes path names)
@@ -895,6 +897,67 @@ func siblingTaggerIdleCase(c *Case) Verdict {
 // file's record on disk, and every downstream record, must hold the tag: the
 // second component must not conclude from the shared in-memory record that
 // there is nothing left to write.
+// conflictingTagCase: two tagging components in a row attach DIFFERENT values
+// under the same key to a file. A record holds one value per key, so it cannot
+// be complete: a workflow that reports completion has dropped one of the two
+// values from the record without telling anybody (the library refuses the
+// second value and stops, which is fine).
+func conflictingTagCase(c *Case) Verdict {
+	t := c.Tape
+	w := &WF{Name: "wf", Sources: map[string]string{}, MaxTasks: 1 + t.Choose(simrt.StGen, 4, 0), Bufsize: bufsizeOf(t)}
+	e := Edge{srcNode(w, "src0", 1+t.Choose(simrt.StGen, 3, 0), ""), "out"}
+	if t.Choose(simrt.StGen, 2, 0) == 1 {
+		e = Edge{oneToOne(w, "pre", e), "o0"}
+	}
+	ta := addNode(w, Node{Name: "taga", Kind: KMapToTags, TagKey: "sample",
+		Ins: []InSpec{{Name: "in", From: []Edge{e}}}, Outs: []OutSpec{{Name: "out"}}})
+	e = Edge{ta, "out"}
+	if t.Choose(simrt.StGen, 2, 0) == 1 {
+		e = Edge{oneToOne(w, "mid", e), "o0"} // (its output inherits sample from its input)
+	}
+	tb := addNode(w, Node{Name: "tagb", Kind: KMapToTags, TagKey: "sample", TagGroups: 1,
+		Ins: []InSpec{{Name: "in", From: []Edge{e}}}, Outs: []OutSpec{{Name: "out"}}})
+	oneToOne(w, "use", Edge{tb, "out"})
+	c.Sample = "two taggers, one key, different values: " + sample(w)
+	c.Probe("conflicting-tag-values")
+	inc := RunInc(w, c.Tape, nil, 0, IncOpts{KillAt: -1, Strategy: strategyOf(c.Tape), Trace: c.Trace})
+	c.Absorb(inc)
+	c.Tasks = max(c.Tasks, 2)
+	if v, ok := inconclusiveEnd(inc); ok {
+		return v
+	}
+	if inc.Sim.End == simrt.EndDeadlock {
+		return Skipped(Viol("deadlock", "", "%s", endDesc(inc)))
+	}
+	if !completedOK(inc) {
+		return OK() // (refused: the library stops at the second value)
+	}
+	// completed: the records of the files made downstream of both taggers must
+	// hold both attached values (out-IPs inherit the tags of their in-IPs)
+	for pth, e := range WorkFiles(inc.Sim.FS.Root) {
+		if e.Kind != simrt.KFile || !strings.HasSuffix(pth, ".use.o0.audit.json") {
+			continue
+		}
+		r, err := readAudit(inc.Sim.FS.Root, strings.TrimSuffix(pth, ".audit.json"))
+		if err != nil {
+			return Viol("audit-unreadable", "", "%v", err)
+		}
+		hasA, hasB := false, false
+		for _, v := range r.Tags {
+			if strings.HasPrefix(v, "t_") {
+				hasA = true
+			}
+			if v == "g0" {
+				hasB = true
+			}
+		}
+		if !hasA || !hasB {
+			return Viol("audit-tag-lost", "conflicting-values", "%s: two tagging components upstream attached sample=t_... and sample=g0; the workflow reports completion and the record holds %v: a tag attached upstream is not present on the downstream record", strings.TrimPrefix(pth, "/work/"), r.Tags)
+		}
+	}
+	return OK()
+}
+
 func siblingTaggerCase(c *Case) Verdict {
 	t := c.Tape
 	w := &WF{Name: "wf", Sources: map[string]string{}, MaxTasks: 1 + t.Choose(simrt.StGen, 4, 0), Bufsize: bufsizeOf(t)}
